@@ -52,8 +52,8 @@ const VALUE_TYPES: [&str; 12] =
     ["uint256", "uint8", "uint128", "int256", "int64", "bool", "address", "bytes32", "bytes4", "uint", "uint64", "address payable"];
 
 impl Builder {
-    pub fn new(rng: &mut Rng, cfg: Cfg) -> Builder {
-        Builder { rng: CRng(std::cell::Cell::new(rng.next())), ids: IdGen(0), cfg, n: 0, state_vars: vec![], locals: vec![], arrays: vec![], fn_names: vec![], in_loop: false }
+    pub fn new(rng: &Rng, cfg: Cfg) -> Builder {
+        Builder { rng: Rng::from_seed(rng.next()), ids: IdGen(0), cfg, n: 0, state_vars: vec![], locals: vec![], arrays: vec![], fn_names: vec![], in_loop: false }
     }
     fn id(&mut self) -> Id {
         self.ids.next()
